@@ -21,11 +21,11 @@ type Scope struct {
 	cgKind  string
 }
 
+// cgKindFor: both tiers use the VTA-refined call graph. CHA resolves a call through a small interface (an "anything with
+// an Element() method" parameter) to every implementer in the program, which pulls functions that only the other side
+// of the protocol runs into the scope of the consuming-path rules.
 func cgKindFor(tier string) string {
-	if tier == "thorough" {
-		return "vta"
-	}
-	return "cha"
+	return "vta"
 }
 
 func consumingEntryPoints(p *Prog) []*ssa.Function {
